@@ -1496,3 +1496,34 @@ def assert_unwind_safe_call(ex, args, callee):
     if 'call_once' in callee:
         return call_callable(ex, f, [])
     return f
+
+
+@stub('Arc::downgrade')
+def arc_downgrade(ex, args, callee):
+    a = ex.deref_all(args[0])
+    if not isinstance(a, ArcV):
+        raise Unsupported('Arc::downgrade of %r' % (a,))
+    return Native('Weak', a, fresh_id())
+
+
+@stub('Weak::upgrade')
+def weak_upgrade(ex, args, callee):
+    w = ex.deref_all(args[0])
+    if not (isinstance(w, Native) and w.rty == 'Weak'):
+        raise Unsupported('Weak::upgrade of %r' % (w,))
+    a = w.state
+    inner = a.cell.v
+    if getattr(ex, 'oracle', False):
+        label = inner.label if isinstance(inner, ArcInner) else 'Arc<?>'
+        k = ex.nondet(2, 'upgrade')
+        ex.ops.append({'kind': 'arc_upgrade', 'out': ['some', 'none'][k], 'label': label})
+        return some(a) if k == 0 else NONE
+    if isinstance(inner, ArcInner) and inner.strong > 0:
+        a.cell.v = ArcInner(inner.value, inner.strong + 1, inner.label)
+        return some(a)
+    return NONE
+
+
+@stub('<Weak as Clone>::clone')
+def weak_clone(ex, args, callee):
+    return ex.deref_all(args[0])
